@@ -304,6 +304,17 @@ def checkHandle (C : Event) (evs : List Event) : Bool :=
   let ps := (C.res - 1) :: cands
   ps.any (fun p => feasible C frees gets p none || cands.any (fun q => feasible C frees gets p (some q)))
 
+/-- executable duplicate check (`decide (l.Nodup)` compiles to code that re-evaluates the recursive
+instance and takes exponential time on long lists) -/
+def nodupB : List Nat → Bool
+  | [] => true
+  | a :: l => !l.contains a && nodupB l
+
+theorem nodupB_iff (l : List Nat) : nodupB l = true ↔ l.Nodup := by
+  induction l with
+  | nil => simp [nodupB]
+  | cons a l ih => simp [nodupB, ih, List.nodup_cons]
+
 /-- is the recorded history linearizable w.r.t. the sequential store spec? -/
 def checkHistory (evs : List Event) : Bool :=
   let creates := evs.filter (fun e => e.op == .create)
@@ -312,7 +323,7 @@ def checkHistory (evs : List Event) : Bool :=
   -- creates succeed, return non-zero handles, and say what they stored
   creates.all (fun e => e.result == .ok && e.handle != 0 && e.ty.isSome && e.obj.isSome) &&
   -- no handle is returned twice
-  decide (creates.map (·.handle)).Nodup &&
+  nodupB (creates.map (·.handle)) &&
   -- the counter is monotone in real time
   creates.all (fun a => creates.all (fun b => !decide (a.res < b.inv) || decide (a.handle < b.handle))) &&
   -- `anoncreds_object_free` cannot fail
